@@ -135,6 +135,9 @@ func RunChildren(run *evid.Run, o ChildOpts) {
 	}
 	if o.Timeout == 0 {
 		o.Timeout = 10 * time.Minute
+		if run.Tier == "thorough" {
+			o.Timeout = 90 * time.Minute // race-instrumented batches of the deep tier are long; the watchdog only guards against a stuck child
+		}
 	}
 	dir, _ := os.MkdirTemp(scratchDir(), run.Prop+"-")
 	defer os.RemoveAll(dir)
